@@ -63,7 +63,7 @@ func init() {
 		Title: "An acknowledged write to the persistent store stays visible to later searches",
 		Harnesses: []*HarnessSpec{
 			{Name: "H_C08_history", Tier: "quick", EngineReplay: true, What: "every history of 3..4 operations over AddWithID / Flush / forced rotation / search (twice) / EvictAllCaches / TriggerCompaction (served by the background worker before the next operation, or not yet), memtable limit one document / unlimited, compaction threshold 2, templates flat and flat+text+metadata; after the history and at every search: every acknowledged document returned, no never-added id, each id once, id set equal to an in-memory hybrid index holding the same documents (query exactly on one document; also with a distance threshold)", Covers: []string{"searched"}},
-			{Name: "H_C08_after_flush", Tier: "quick", What: "2 documents (one optionally removed again or updated), optionally an Add / AddWithID the store refuses (wrong dimension, valid text and metadata), [rotation,] Flush, search, a later Add (explicit or automatic id), three more searches incl. metadata-only queries by filter list and by filter groups: the single segment is cached by the first search, every acknowledged document stays visible", Covers: []string{"ran"}},
+			{Name: "H_C08_after_flush", Tier: "quick", What: "2 documents (one optionally removed again or updated), optionally an Add / AddWithID the store refuses (wrong dimension, valid text and metadata), [rotation,] Flush, search, a later Add (explicit or automatic id), three more searches incl. metadata-only queries by filter list and by filter groups and fused queries with every search option set (fusion by kind / by object, aggregation kind, cutoff, efSearch, nprobes): the single segment is cached by the first search, every acknowledged document stays visible", Covers: []string{"ran"}},
 			{Name: "H_C08_compact", Tier: "quick", What: "compaction of 2..3 single-document segments of one session (threshold = their number), each searched after its flush or never loaded, caches evicted or not, served by the background worker: every document visible afterwards, same id set as the in-memory index (also under a threshold)", Covers: []string{"compacted"}},
 			{Name: "H_C08_merge", Tier: "quick", What: "2..3 documents spread over 1..3 memtables (rotations) and optionally a segment: each id once, k applied after de-duplication, descending scores", Covers: []string{"ran"}},
 		},
